@@ -255,6 +255,18 @@ func runC13(r *Run, p *Prog) {
 							}
 						}
 						detail = fmt.Sprintf("*%s = %s (expected %s), nil-guarded: %v", prm.Name(), got, want, guarded)
+						// and the value is written whenever the pointer is not nil (no further condition on the value:
+						// an empty string in the reply is a value like any other)
+						if ok && callInstr != nil {
+							sto := s
+							skip, w := reachInstr(f, callInstr, func(i ssa.Instruction) bool { return isNilErrorReturn(i) },
+								func(i ssa.Instruction) bool { return i == ssa.Instruction(sto) },
+								func(x, y *ssa.BasicBlock) bool { return hasFact(T.edgeFactsOn(x, y), "EQ", T.T(prm), "nil") })
+							if skip {
+								ok = false
+								detail = fmt.Sprintf("*%s is not written on every path with a non-nil pointer (a success return is reachable past the store, e.g. via %s): values the service sent are withheld from the caller", prm.Name(), p.Pos(w[len(w)-1].Pos()))
+							}
+						}
 					}
 				}
 				r.Ob("M1", name, fmt.Sprintf("reply key `%s` is returned through pointer parameter %d (%s)", key, k+1, prm.Name()), f.Pos(), ok, detail)
